@@ -348,6 +348,8 @@ func RunSub[P any](t *testing.T, s Sub[P]) {
 	t.Run(s.Name, func(t *testing.T) {
 		var firstFail string
 
+		curT = t
+
 		rapid.Check(t, func(rt *rapid.T) {
 			p := s.Gen(rt)
 
@@ -425,6 +427,8 @@ func runReplay[P any](t *testing.T, s Sub[P], path string) {
 	t.Run(s.Name, func(t *testing.T) {
 		var p P
 
+		curT = t
+
 		dec := json.NewDecoder(strings.NewReader(string(rf.Plan)))
 		if err := dec.Decode(&p); err != nil {
 			t.Fatalf("cannot decode plan: %v", err)
@@ -447,6 +451,11 @@ func runReplay[P any](t *testing.T, s Sub[P], path string) {
 }
 
 var replayMatched bool
+
+var curT *testing.T
+
+// T returns the *testing.T of the running sub-check (needed by synctest.Test).
+func T() *testing.T { return curT }
 
 func firstLine(s string) string {
 	if i := strings.IndexByte(s, '\n'); i >= 0 {
